@@ -421,6 +421,26 @@ impl Check for C13 {
                 labels.push("derive:both-traits".into());
             }
         }
+        // generic instances that occur only in the fields of non-generic types nobody uses: the order
+        // in which their definitions are emitted must not depend on the process
+        if d.chance(70) {
+            let fi = d.below(files.len());
+            let mut t = String::from("enum Opt13[T] { None13, Some13(T) }\nstruct Pair13[A, B] { fst: A, snd: B }\n");
+            const ARGS: [&str; 6] = ["int32", "string", "bool", "int64", "uint8", "unit"];
+            let n = 2 + d.below(4);
+            for j in 0..n {
+                let a = ARGS[(j + d.below(3)) % ARGS.len()];
+                let b = ARGS[(j * 2 + 1) % ARGS.len()];
+                if d.bool() {
+                    t.push_str(&format!("enum Holder13x{j} {{ H{j}a(Opt13[{a}]), H{j}b(Pair13[{a}, {b}]) }}\n"));
+                } else {
+                    t.push_str(&format!("struct Holder13x{j} {{ o: Opt13[{b}], p: Pair13[{b}, {a}] }}\n"));
+                }
+            }
+            files[fi].1.push('\n');
+            files[fi].1.push_str(&t);
+            labels.push("unused-generic-instances".into());
+        }
         // an impl that lacks several of its trait's methods / defines several the trait does not have:
         // the diagnostics (several for one item) must come in one order in every process
         if d.chance(40) {
@@ -476,6 +496,6 @@ impl Check for C13 {
         ]
     }
     fn required_labels(&self, _tier: Tier) -> Vec<&'static str> {
-        vec!["stage:ok", "stage:typer", "diagnostics>=2", "imports>=2", "processes", "multi-file", "shape:diamond", "derive:both-traits", "extern-go>=2", "broken:impl-missing-methods"]
+        vec!["stage:ok", "stage:typer", "diagnostics>=2", "imports>=2", "processes", "multi-file", "shape:diamond", "derive:both-traits", "extern-go>=2", "broken:impl-missing-methods", "unused-generic-instances"]
     }
 }
